@@ -523,7 +523,7 @@ def gen_mesh(rng: random.Random, w: int, h: int, *, concave: bool = True, midpoi
         edges = set()
         for f in faces:
             for a, b in zip(f, f[1:] + f[:1]):
-                if abs(a[0] - b[0]) + abs(a[1] - b[1]) == 2:
+                if abs(a[0] - b[0]) + abs(a[1] - b[1]) == 2 and (a[0] == b[0] or a[1] == b[1]):
                     edges.add(frozenset((a, b)))
         for e in sorted(edges, key=sorted):
             if rng.random() < 0.15:
